@@ -230,6 +230,16 @@ def run(ctx):
         check_collinear(rep, spec)
         for level in spec["levels"]:
             ctx.case("chain", dict(pid=spec["pid"], t=spec["t"], r=spec["r"], pose=[spec["origin"], spec["axis"]], level=level), nontrivial=overlapping_neighbours(spec))
+        nfar = getattr(rep, "_nfar", 0)
+        if nfar < (12 if ctx.tier == "quick" else 60) and all(float(v) == float(np.float32(1000000.0 + v)) - 1000000.0 for v in spec["t"]):
+            # the same chain far from the origin along a coordinate axis (exactly representable, exactly collinear):
+            # tolerance-based "is this sphere at that end" tests must not depend on where the neuron sits
+            rep._nfar = nfar + 1
+            for origin, axis in (((1000000.0, 0.0, 0.0), (1.0, 0.0, 0.0)), ((0.0, 0.0, -1000000.0), (0.0, 0.0, -1.0))):
+                far = dict(spec, origin=list(origin), axis=list(axis), levels=[3, 4])
+                check_collinear(rep, far)
+                for level in far["levels"]:
+                    ctx.case("chain-far", dict(pid=far["pid"], t=far["t"], r=far["r"], pose=[far["origin"], far["axis"]], level=level), nontrivial=overlapping_neighbours(far))
     mc_budget = 2 if ctx.tier == "quick" else 12  # every two-armed root at level >= 5 costs a 1e6-sample Monte-Carlo term (exactly 0 here)
     for spec in two_arm_cases(ctx.tier, rng):
         if not admissible(spec["pid"], spec["t"], spec["r"]):
